@@ -7,6 +7,7 @@ sizes are fixed per run (the extent nmemb*size is then linear); cursors into the
 abstracted with stride = element size so that alignment is part of the loop invariants.
 """
 import os
+from irlib import keep_all_but_new_helpers
 from common import *
 from irlib import AnalysisBroken
 from absval import IntVal, PtrVal, CondVal, mk_const, NULL
@@ -117,7 +118,7 @@ def comparator_hook(K, sites, check_elems, key_role_first):
 
 
 def bsearch_job(repo, fname, K, empty):
-    mod = libc_unit(repo, 'compat/libc/stdlib/bsearch.c')
+    mod = libc_unit(repo, 'compat/libc/stdlib/bsearch.c', inline=keep_all_but_new_helpers())
     f = mod.fn(fname)
     if f is None or f.decl:
         raise AnalysisBroken('%s not defined in bsearch.c (anchor vanished)' % fname)
@@ -147,7 +148,7 @@ def bsearch_job(repo, fname, K, empty):
 
 
 def qsort_job(repo, K, part):
-    mod = libc_unit(repo, 'compat/libc/stdlib/qsort.c')
+    mod = libc_unit(repo, 'compat/libc/stdlib/qsort.c', inline=keep_all_but_new_helpers(('swap',)))
     f = mod.fn('qsort')
     if f is None or f.decl:
         raise AnalysisBroken('qsort not defined in qsort.c (anchor vanished)')
@@ -250,7 +251,7 @@ WRITERS = ('memcpy', 'memmove', 'memset', 'llvm.memcpy', 'llvm.memmove', 'llvm.m
 
 
 def ir_rules(rep, repo):
-    mod = libc_unit(repo, 'compat/libc/stdlib/qsort.c')
+    mod = libc_unit(repo, 'compat/libc/stdlib/qsort.c', inline=keep_all_but_new_helpers(('swap',)))
     q = mod.fn('qsort')
     sw = mod.fn('swap')
     if q is None or q.decl:
@@ -312,7 +313,7 @@ def ir_rules(rep, repo):
              None if ok else 'swap(fst, snd, size) performs %s; an exchange is tmp<-snd, snd<-fst, fst<-tmp with size bytes each'
              % (seq,), fact={'copies': seq})
     # bsearch/qsort: the comparator is the function pointer parameter (not a fixed function)
-    bm = libc_unit(repo, 'compat/libc/stdlib/bsearch.c')
+    bm = libc_unit(repo, 'compat/libc/stdlib/bsearch.c', inline=keep_all_but_new_helpers())
     for (m, fname, argno) in ((bm, 'bsearch', 4), (bm, 'lower_bound', 4), (bm, 'upper_bound', 4), (mod, 'qsort', 3)):
         f = m.fn(fname)
         if f is None or f.decl:
